@@ -93,6 +93,10 @@ func cmdCrashChild(f hx.Flags, r *hx.Result) {
 	}
 	cfg.AddLogger("lg", "Logger", "", "crash_tag", refs, twin, ex)
 	handle := log.GetLogger("lg")
+	if v := f.Str("bufcap", ""); v != "" {
+		cfg["bufferCap"] = v // the buffer-reuse cap; with padfixed the lines' buffers have exactly this capacity
+	}
+	padFixed := f.Int("padfixed", 0)
 	padSweep := f.Int("padsweep", 0) // > 0: call i pads with padsweep+i bytes, so line lengths sweep a contiguous range
 	if kind == "rolling" && f.Str("churn", "") != "" {
 		// every clock reading is one interval later than the previous one: every call rotates, and the
@@ -139,6 +143,9 @@ func cmdCrashChild(f hx.Flags, r *hx.Result) {
 					pad := crashPad(id)
 					if padSweep > 0 {
 						pad = strings.Repeat("s", padSweep+i)
+					}
+					if padFixed > 0 {
+						pad = strings.Repeat("s", padFixed)
 					}
 					log.Info(ctx, tag, log.Int("id", id), log.String("pad", pad), log.Int("end", id))
 				}
